@@ -26,8 +26,8 @@ CHECKS = ROOT
 FILES = {
     "fastavro/io/binary_encoder.py": ["C01", "C02", "C04"],
     "fastavro/io/binary_decoder.py": ["C01", "C03", "C06", "C05"],
-    "fastavro/_write_py.py": ["C01", "C02", "C04", "C05", "C07", "C09", "C10"],
-    "fastavro/_read_py.py": ["C01", "C03", "C04", "C05", "C06", "C08", "C09"],
+    "fastavro/_write_py.py": ["C01", "C02", "C04", "C05", "C07", "C09", "C10", "C15", "C16"],
+    "fastavro/_read_py.py": ["C01", "C03", "C04", "C05", "C06", "C08", "C09", "C15", "C16"],
     "fastavro/_schema_py.py": ["C11", "C13", "C12", "C19", "C14", "C04", "C09"],
     "fastavro/_validation_py.py": ["C10", "C09"],
     "fastavro/_logical_writers_py.py": ["C16", "C10"],
